@@ -100,6 +100,14 @@ fn main() {
             let m = gen::structural_mutants(&rec, &mut r);
             eprintln!("structural_mutants {} {:?}", m.len(), t.elapsed());
         }
+        "sanitizer-selftest" => {
+            // deliberate one-byte heap over-read, used only by tools/validate_sanitizers.py to show that each
+            // sanitizer layer reports and that the supervisor would see it
+            let v = vec![1u8; 16];
+            let off: usize = args.get(2).and_then(|a| a.parse().ok()).unwrap_or(16);
+            let x = unsafe { std::ptr::read_volatile(v.as_ptr().add(off)) };
+            println!("read {x}");
+        }
         "replay" => {
             if args.len() < 3 {
                 usage();
